@@ -134,7 +134,7 @@ def what_of(tr, l, clause):
 def run(ctx):
     q = ctx.quick
     ctx.rule = ("MC: every history (<= MaxOps requests) of open(name, flag set) / read / write / set size / fstat / close / stat / "
-                "rename / posix-rename / remove / rmdir / mkdir over 2 names and 2 handles from 8 (quick) initial directories. TRACE: seeded "
+                "rename / posix-rename / remove / rmdir / mkdir over 2 names and 2 handles from 4 (quick) / 14 (thorough) initial directories. TRACE: seeded "
                 "histories against the real SFTPUserHandler: 3 names with a seeded initial population (absent, LIT / CHK file, no-write "
                 "link, SDMF / MDMF mutable file by write or read cap, directory, unknown cap), a read-only sub-directory, /uri/<cap> "
                 "paths; open with any subset of the six flags (75% from 16 common combinations); 60% sequential histories, 40% with "
@@ -149,13 +149,13 @@ def run(ctx):
         "FXF_CREAT without FXF_WRITE on a path where no commit is possible is not generated (undocumented)",
         "timestamps and the text of error messages are not judged",
     ]
-    # quick: 2 initial directories (immutable / mutable file under the first name), 6 flag sets, 3 requests;
-    # thorough: 14 initial directories (no-write link, read-only mutable, directory, unknown cap, second file), 10 flag
+    # quick: 4 initial directories (immutable / mutable file under the first name, second name absent / a file), 8 flag
+    # sets, 3 requests; thorough: 14 initial directories (no-write link, read-only mutable, directory, unknown cap, second file), 10 flag
     # sets, the read-only directory and a cap path, 4 requests
     consts = dict(Names='{"a", "b"}', Handles='{"h1", "h2"}',
-                  FlagSets='{{"R"}, {"R","W"}, {"W","C"}, {"W","C","X"}, {"W","A"}, {"R","C"}}' if q else
+                  FlagSets='{{"R"}, {"W"}, {"R","W"}, {"W","C"}, {"W","C","T"}, {"W","C","X"}, {"W","A"}, {"R","C"}}' if q else
                   '{{"R"}, {"W"}, {"R","W"}, {"W","C"}, {"W","C","T"}, {"W","C","X"}, {"W","A"}, {"R","C"}, {"W","T"}, {"R","W","C","T"}}',
-                  WorldIds="{2, 3}" if q else "{1, 2, 3, 4, 5, 6, 7}", OtherIds="{1}" if q else "{1, 2}",
+                  WorldIds="{2, 3}" if q else "{1, 2, 3, 4, 5, 6, 7}", OtherIds="{1, 2}",
                   Offs="{0, 2}", Sizes="{0, 3}" if q else "{0, 1, 3}", MaxOps=3 if q else 4, SizeRule="contract",
                   WithRo="FALSE" if q else "TRUE")
     ctx.constants["MC"] = consts
@@ -173,13 +173,21 @@ def run(ctx):
         if "SH_CloseCommits" not in r.violated and not os.environ.get("VERIF_SKIP_MC"):
             raise RuntimeError("the model with the code's size rule was not refuted: %s" % r.violated)
 
-    n = 100 if q else 1200
-    # the two model-checking runs and the driver of the real code do not depend on each other: run them side by side
-    with ThreadPoolExecutor(max_workers=2) as ex:
-        futs = [ex.submit(design), ex.submit(design_code_rule)]
+    n = 90 if q else 1200
+    # the two model-checking runs do not depend on the driver of the real code and the trace validation: run them side by side
+    ex = ThreadPoolExecutor(max_workers=2)
+    futs = [ex.submit(design), ex.submit(design_code_rule)]
+    try:
         out = ctx.impl("harness/sftp_handles_driver.py", ["--n", n, "--events", 14 if q else 24])
+        validate(ctx, out)
+    finally:
         for f in futs:
             f.result()
+        ex.shutdown()
+    ctx.exhaustive = False
+
+
+def validate(ctx, out):
     traces = out["traces"]
     ctx.constants["TRACE"] = out["info"]
     stats = {"requests": 0, "piped": 0, "opens_ok": 0, "opens_refused": 0, "commits": 0, "reads_ok": 0, "observations": 0, "hangs": 0}
@@ -233,4 +241,3 @@ def run(ctx):
     if again:
         ctx.notes.append("%d histories validated a second time with their known deviation stepped over" % len(again))
         ctx.trace("frontends/TraceSftpHandles", again, key_of=key_of, what_of=what_of, name="TRACE second pass", invariants=())
-    ctx.exhaustive = False
